@@ -150,26 +150,32 @@ impl Case13 {
         let gd = GradientDescent::new(fl(self.lr));
         let lr = fl(self.lr);
         let cost = corgi::cost::mse();
-        let mut layer = ParamLayer { params: self.params.iter().map(|p| { let a = arr(&p.dims, &p.vals); if p.tracked { a.tracked() } else { a } }).collect() };
-        let mut expected: Vec<(Vec<usize>, Vec<Float>, bool)> = layer.params.iter().map(|p| (p.dimensions().to_vec(), p.values().to_vec(), probe_tracked(p))).collect();
+        // the parameters are spread over two layers with a user-defined layer WITHOUT parameters between them
+        let all: Vec<Array> = self.params.iter().map(|p| { let a = arr(&p.dims, &p.vals); if p.tracked { a.tracked() } else { a } }).collect();
+        let split = all.len() / 2;
+        let mut layer_b = ParamLayer { params: all[split..].to_vec() };
+        let mut layer = ParamLayer { params: all[..split].to_vec() };
+        drop(all);
+        let mut empty = ParamLayer { params: vec![] };
+        let mut expected: Vec<(Vec<usize>, Vec<Float>, bool)> = layer.params.iter().chain(layer_b.params.iter()).map(|p| (p.dimensions().to_vec(), p.values().to_vec(), probe_tracked(p))).collect();
         let rounds = self.rounds.clone();
         let mut observed: Vec<Vec<(Vec<usize>, Vec<Float>, bool, bool)>> = vec![];
         // a Model borrows its layers exclusively, so the gradients are deposited between the lifetimes of short-lived
         // models: one Model::update per round
         for (r, round) in rounds.iter().enumerate() {
-            for (p, g) in layer.params.iter().zip(round) {
+            for (p, g) in layer.params.iter().chain(layer_b.params.iter()).zip(round) {
                 if let Some(g) = g {
                     *p.gradient_mut() = Some(arr(p.dimensions(), g));
                 }
             }
-            let olds: Vec<Array> = if self.no_old_clones { vec![] } else { layer.params.iter().cloned().collect() };
+            let olds: Vec<Array> = if self.no_old_clones { vec![] } else { layer.params.iter().chain(layer_b.params.iter()).cloned().collect() };
             {
-                let mut model = corgi::model::Model::new(vec![&mut layer as &mut dyn corgi::layer::Layer], &gd, &cost);
+                let mut model = corgi::model::Model::new(vec![&mut layer as &mut dyn corgi::layer::Layer, &mut empty as &mut dyn corgi::layer::Layer, &mut layer_b as &mut dyn corgi::layer::Layer], &gd, &cost);
                 if let Err(p) = guarded(|| model.update()) {
                     return e("unexpected-panic", format!("round {}: Model::update panicked: {}", r, p));
                 }
             }
-            observed.push(layer.params.iter().map(|p| (p.dimensions().to_vec(), p.values().to_vec(), probe_tracked(p), p.gradient().is_some())).collect());
+            observed.push(layer.params.iter().chain(layer_b.params.iter()).map(|p| (p.dimensions().to_vec(), p.values().to_vec(), probe_tracked(p), p.gradient().is_some())).collect());
             for (i, g) in round.iter().enumerate() {
                 let (bd, bv, bt) = &expected[i];
                 let (d, v, t, has_g) = &observed[r][i];
@@ -332,6 +338,23 @@ pub fn campaigns(ctx: &Ctx) -> Stats {
         let shapes: Vec<Vec<usize>> = (0..*n).map(|i| vec![1 + (i % 3)]).collect();
         Some(build(&R13 { shapes, tracked: vec![true], masks: vec![(0..*n).map(|i| m1[i % m1.len()] | 1 << (i % 5)).map(|b| if b % 5 == 0 { 0 } else { b }).collect(), (0..*n).map(|i| m2[(i * 7) % m2.len()]).collect()], lri: *lri }, None))
     }));
+    // parameters that are EQUAL (same dimensions, same values - zero or constant initialisation) next to each other, some
+    // frozen, some not: identity, not equality, decides what is stepped
+    {
+        let shapes: [&[usize]; 3] = [&[3], &[2, 2], &[1]];
+        st.merge(ctx.run_indexed("equal-valued-parameters", 3 * 3 * 64 * 2, None, |i| {
+            let d = shapes[(i % 3) as usize].to_vec();
+            let c = [0.0, 1.0, -2.5][((i / 3) % 3) as usize];
+            let pat = (i / 9) % 64;
+            let via_model = (i / 9 / 64) % 2 == 1;
+            let n: usize = d.iter().product();
+            let np = 4;
+            let params: Vec<Param> = (0..np).map(|_| Param { dims: d.clone(), vals: vec![c; n], tracked: true }).collect();
+            // two rounds, every frozen / active pattern of the first three parameters in each
+            let round = |bits: u64, r: usize| -> Vec<Option<Vec<f64>>> { (0..np).map(|p| if p < 3 && (bits >> p) & 1 == 0 { None } else { Some(grad_vals(r, p, n, 0)) }).collect() };
+            Some(Case13 { lr: 0.5, params, rounds: vec![round(pat % 8, 0), round(pat / 8, 1)], via_model, no_old_clones: i % 2 == 1 })
+        }));
+    }
     // parameter lists with thousands of values in total (odd and even totals, around powers of two and beyond 2^16):
     // an optimizer that splits or blocks its work by element count
     {
